@@ -3,6 +3,7 @@ import AikenVerif.Drivers.Cek
 import AikenVerif.Drivers.Shrink
 import AikenVerif.Drivers.Flat
 import AikenVerif.Drivers.DeBruijn
+import AikenVerif.Drivers.Schema
 /-!
 Native driver: line protocol.  Each request line is
   `<sub-command> <case-id> <fields…>`
